@@ -282,7 +282,7 @@ fn store_api(report: &Report, k: u32) {
 
 /// Partial *sources* of every lexical shape.  The scenario family varies the caller over a fixed
 /// partial library; here the caller is fixed and the partial's text is every sequence of <= k
-/// items from a lexical alphabet (plain text, lone `{ } %`, quotes, non-ASCII, output / tag / block
+/// items from a lexical alphabet (plain text, lone `{ } %`, quotes, non-ASCII, references to absent partials on dead and live paths, output / tag / block
 /// markup with and without trim markers, raw, comment, and broken markup).  Whatever a policy does
 /// with a source before or instead of parsing it (a shortcut for "static" text, a pre-scan, a
 /// normalisation) must not be observable: the three policies agree on include and on render, and
@@ -291,6 +291,8 @@ fn partial_sources(report: &Report, k: u32) {
     let items = [
         "a", " ", "\n", "{", "}", "%", "{ ", "'", "\"", "é", "{{ x }}", "{{- x -}}", "{% if x %}T{% endif %}", "{%- assign y = 'Y' -%}{{ y }}", "{% raw %}{{ r }}{% endraw %}",
         "{% comment %}c{% endcomment %}", "{{ !! }}", "{% if", "{% endif %}", "{{ x",
+        // references to absent partials on paths the render does not take (and one it does take)
+        "{% if false %}{% include 'gone' %}{% endif %}", "{% if x %}A{% else %}{%- render \"gone\" -%}{% endif %}", "{% for i in nothing %}{% include 'gone' %}{% endfor %}", "{% include 'gone' %}",
     ];
     let n = items.len() as u64;
     let total = seq_count(n, k);
